@@ -59,6 +59,12 @@ T = {
             'Label table (n, m, uniform/mixed): all pairs in thorough, all m<=48 plus tie-break bands in quick; random maps over hostile shapes; parser half: '
             'reference trees with random valid label kinds (incl. zero-length), HashmapAug extras, random pruned subtrees through 7 parser entry points.',
             'R4 encoder/decoder validated on the pinned dictionary hash and by encoder/decoder identity'),
+    'C12': ('reference-model monitor: independent acceptance predicate (R7, PyNaCl verification) beside check_block_signatures over real keys, with fault '
+            'enumeration of invalid/duplicated/foreign signature operators',
+            'fault_enumeration', '4/C12',
+            'Validator sets of 0..100 real Ed25519 keys x 7 weight classes; honest subsets at/below/above 2/3 (exact 2/3 included), duplicates (x1, x7, xn, pushing '
+            'over the line), 9 kinds of invalid entry at first/middle/last position, empty sets; verdict must equal R7 in both directions.',
+            'PyNaCl Ed25519; duplicate-with-supermajority lists are not judged (ambiguous in the property)'),
     'C13': ('metamorphic round-trip monitor + independent 36-byte layout/CRC-16 reference + fault enumeration of single-character substitutions',
             'fault_enumeration', '4/C13',
             'All 256 workchains x id patterns x 9 renderings round-trip with flags; for sampled addresses all 48x63 substitutions are rejected.',
@@ -72,6 +78,12 @@ T = {
             'exploration', '4/C18',
             'All 65536 two-byte inputs (every table index under every preceding byte), all lengths 0..300/2000, long buffers, both byte orders.',
             'R6 validated on the catalogue check values'),
+    'C20': ('metamorphic peer-symmetry monitor with both endpoints constructed + postcondition contract on AdnlChannel.encrypt (packet layout) + '
+            'signature negatives by fault enumeration (all 512 bit flips)',
+            'exploration', '4/C20',
+            'Key-pair/id pairs in both id orders, equal ids, ids differing in one byte; plaintext lengths 0..100000; each direction encrypted by one side and '
+            'decrypted by the other, key id expected by the peer, SHA-256 of plaintext; 3 signing helpers, negatives; sampled mnemonics valid, derivation deterministic.',
+            'libsodium / x25519 / pycryptodome trusted; mnemonic_new sampled'),
 }
 
 
